@@ -98,6 +98,18 @@ func c17judge(c *h.Ctx, cs c17case, in, out orb.LineString, df orb.DistanceFunc,
 	}
 }
 
+// a long-lived buffer: half of the calls hand the library the same backing array with new contents
+// (callers edit and reuse slices; nothing may be remembered about an earlier call's slice)
+var c17buf = make(orb.LineString, 64)
+
+func c17arg(r *h.Rand, in orb.LineString) orb.LineString {
+	if in != nil && len(in) <= len(c17buf) && r.Bool() {
+		copy(c17buf, in)
+		return c17buf[:len(in):len(in)]
+	}
+	return cloneLS(in)
+}
+
 func init() {
 	dfs := []struct {
 		name string
@@ -180,7 +192,7 @@ func init() {
 					cs := c17case{sv(in), dfi.name, n, 0}
 					c.Note([]byte(sv(cs)))
 					var out orb.LineString
-					if pv, stack := h.Catch(func() { out = resample.Resample(cloneLS(in), dfi.f, n) }); pv != nil {
+					if pv, stack := h.Catch(func() { out = resample.Resample(c17arg(r, in), dfi.f, n) }); pv != nil {
 						c.Fail("", "Resample panicked", map[string]interface{}{"case": cs, "panic": sv(pv), "stack": stack})
 					} else {
 						c.Eval()
@@ -231,7 +243,7 @@ func init() {
 					cs = c17case{sv(in), dfi.name, 0, d}
 					c.Note([]byte(sv(cs)))
 					out = nil
-					if pv, stack := h.Catch(func() { out = resample.ToInterval(cloneLS(in), dfi.f, d) }); pv != nil {
+					if pv, stack := h.Catch(func() { out = resample.ToInterval(c17arg(r, in), dfi.f, d) }); pv != nil {
 						c.Fail("", "ToInterval panicked", map[string]interface{}{"case": cs, "panic": sv(pv), "stack": stack})
 						return
 					}
